@@ -153,6 +153,25 @@ def main(argv=None):
         samples.extend(r["samples"][:2])
         nontrivial.update(r["nontrivial"])
 
+    # cross-mode comparison hook (e.g. JIT on vs JIT off): the check module sees every shard's blobs grouped by mode
+    if hasattr(mod, "cross_modes") and not a.replay:
+        by_mode = {}
+        for o in outs:
+            if o["res"] is not None:
+                by_mode.setdefault(o["mode"], []).append(o["res"].get("blobs", {}))
+        try:
+            n_eval, extra = mod.cross_modes(by_mode)
+            clause_evals["cross_mode"] = clause_evals.get("cross_mode", 0) + n_eval
+            for v in extra:
+                v.setdefault("property", prop)
+                v.setdefault("mode", "cross")
+                violations.append(v)
+                viol_count += 1
+                key = v["clause"] + "|" + json.dumps(v["sig"], sort_keys=True, default=core._jd)
+                viol_sigs[key] = viol_sigs.get(key, 0) + 1
+        except Exception as e:  # a failing hook must not pass silently
+            inconclusive.append("cross_modes hook failed: %r" % (e,))
+
     evaluations = sum(clause_evals.values())
     min_eval = getattr(mod, "MIN_EVAL", {}).get(tier, {}) if not a.replay else {}
     for clause, n in min_eval.items():
